@@ -556,7 +556,6 @@ func c19ExactMatch(c *Ctx, pk *packages.Package, nt *types.Named) {
 	c.Ob("EXACT-MATCH", inst, fr.Decl.Pos(), bad == "", true, "address parameter uses: %v %s", uses, bad)
 }
 
-
 func splitOr(e ast.Expr) []ast.Expr {
 	e = ast.Unparen(e)
 	if be, ok := e.(*ast.BinaryExpr); ok && be.Op == token.LOR {
